@@ -202,8 +202,10 @@ def parse_check_json(text):
         j = json.loads(text)
     except Exception as e:
         raise Bad("not valid JSON: %s" % e)
-    if not isinstance(j, dict) or set(j) != {"summary", "results"}:
-        raise Bad("top-level keys are not {summary, results}")
+    # the report is an object holding at least the summary and the results (further top-level fields, e.g. a
+    # schema or tool version, are not the property's business)
+    if not isinstance(j, dict) or not {"summary", "results"} <= set(j):
+        raise Bad("top-level object lacks summary / results")
     s = j["summary"]
     for k in ("total_files", "passed", "warnings", "failed", "grandfathered"):
         if not isinstance(s.get(k), int):
@@ -256,8 +258,10 @@ def parse_sarif(text):
     return {"entries": entries, "summary": None, "bad_uris": bad_uris, "uris": uris, "doc": j}
 
 
-_TEXT_HEAD = re.compile(r"(?m)^(✓|⚠|✗|◉) (?:\x1b\[\d+m)?(PASSED|WARNING|FAILED|GRANDFATHERED)(?:\x1b\[0m)?: ")
-_TEXT_TAIL = re.compile(r"\n   (?:Total: \d+\n   Lines: |Files: \d+ \(limit|Directories: \d+ \(limit|Depth: \d+ \(limit|Reason: )")
+# layout-tolerant: any status glyph, any indentation of the detail lines, detail lines in any order (the property is
+# about WHICH results and statuses the text names, not about glyphs or spacing)
+_TEXT_HEAD = re.compile(r"(?m)^(\S{1,4}) (?:\x1b\[\d+m)?(PASSED|WARNING|FAILED|GRANDFATHERED)(?:\x1b\[0m)?: ")
+_TEXT_TAIL = re.compile(r"\n[ \t]{1,8}(?:Total: \d+\n|Lines: \d+ \(limit|Files: \d+ \(limit|Directories: \d+ \(limit|Depth: \d+ \(limit|Reason: |Breakdown: code=)")
 _TEXT_SUM = re.compile(r"(?m)^Summary: (\d+) files checked, (\d+) passed, (\d+) warnings, (\d+) failed(?: \(baseline: (\d+) grandfathered\))?$")
 _ANSI = re.compile(r"\x1b\[\d+m")
 _ICON = {"✓": "passed", "⚠": "warning", "✗": "failed", "◉": "grandfathered"}
@@ -268,9 +272,11 @@ def parse_text(text):
     """Extractor for the text format (an unescaped format: a file name could in principle forge a
     header line; the generated names do not)."""
     entries = []
+    glyph_of = {}
     heads = list(_TEXT_HEAD.finditer(text))
     for i, m in enumerate(heads):
-        if _ICON[m.group(1)] != _WORD[m.group(2)]:
+        # one glyph stands for one status throughout the document
+        if glyph_of.setdefault(m.group(1), m.group(2)) != m.group(2):
             raise Bad("text: icon and status word disagree")
         end = heads[i + 1].start() if i + 1 < len(heads) else len(text)
         body = text[m.end():end]
